@@ -16,6 +16,7 @@
   `Ev` for their subexpressions, so the theorems hold for *every* world.
 -/
 import OlVerif.Lower.Stmt
+import OlVerif.Assign.Unpack
 
 namespace OlVerif.Sem
 
@@ -150,30 +151,48 @@ inductive Clean : Expr → Prop
 
 /-! ### source statements (module level, straight line) -/
 
+/-- position of the (first) starred item of a pattern -/
+def starIndex : List Expr → Option Nat
+  | [] => none
+  | e :: es => if e.isStarred then some 0 else (starIndex es).map (· + 1)
+
+def starCount : List Expr → Nat
+  | [] => 0
+  | e :: es => (if e.isStarred then 1 else 0) + starCount es
+
 mutual
-  /-- one target of an assignment receives `v` (language reference 7.2); a tuple / list pattern without a
-      starred item iterates `v` to exhaustion, demands exactly as many items as targets and assigns them
-      left to right (patterns nest) -/
+  /-- one target of an assignment receives `v` (language reference 7.2); a tuple / list pattern iterates
+      `v` to exhaustion, demands as many items as it has targets (at least one less when one target is
+      starred; the starred target receives the list of the surplus - `pyValuesG`, Python's rule) and
+      assigns left to right (patterns nest) -/
   inductive AssignT (W : World U V) : Expr → V → U → U → Prop
     | name (x : String) (v : V) (u : U) : ¬ isTemp x → AssignT W (.name x) v u (W.store x v u)
     | attr (o : Expr) (a : String) {v ov : V} {u u1 u2 : U} :
         Ev W o u [] ov u1 [] → W.setattr ov a v u1 = some u2 → AssignT W (.attribute o a) v u u2
     | sub (o i : Expr) {v ov iv : V} {u u1 u2 u3 : U} :
         Ev W o u [] ov u1 [] → Ev W i u1 [] iv u2 [] → W.setitem ov iv v u2 = some u3 → AssignT W (.subscript o i) v u u3
-    | tuple (es : List Expr) {v : V} {items : List V} {u u1 u2 : U} :
-        W.iter v u = some (items, u1) → items.length = es.length → AssignEach W es items u1 u2 → AssignT W (.tuple es) v u u2
-    | list (es : List Expr) {v : V} {items : List V} {u u1 u2 : U} :
-        W.iter v u = some (items, u1) → items.length = es.length → AssignEach W es items u1 u2 → AssignT W (.list es) v u u2
+    | tuple (es : List Expr) {v : V} {items vals : List V} {u u1 u2 : U} :
+        W.iter v u = some (items, u1) → pyValuesG W.listOf es.length (starIndex es) items = some vals →
+        AssignEach W es vals u1 u2 → AssignT W (.tuple es) v u u2
+    | list (es : List Expr) {v : V} {items vals : List V} {u u1 u2 : U} :
+        W.iter v u = some (items, u1) → pyValuesG W.listOf es.length (starIndex es) items = some vals →
+        AssignEach W es vals u1 u2 → AssignT W (.list es) v u u2
+    | starred (sub : Expr) {v : V} {u u' : U} : AssignT W sub v u u' → AssignT W (.starred sub) v u u'
   inductive AssignEach (W : World U V) : List Expr → List V → U → U → Prop
     | nil (u : U) : AssignEach W [] [] u u
     | cons {t : Expr} {ts : List Expr} {v : V} {vs : List V} {u u1 u2 : U} :
         AssignT W t v u u1 → AssignEach W ts vs u1 u2 → AssignEach W (t :: ts) (v :: vs) u u2
 end
 
-/-- tuples are what they are made of: indexing a tuple built from `items` with the integer `i` gives `items[i]` -/
+/-- tuples are what they are made of: indexing (negative indices from the end), slicing with the
+    bounds the converter emits, and iterating a tuple built from `items` give the items -/
 structure LawfulSeq (W : World U V) : Prop where
-  index : ∀ (items : List V) (i : Nat) (v : V) (u : U), items[i]? = some v →
-    W.getitem (W.tupleOf items) (W.const (.int (i : Int))) u = some (v, u)
+  index : ∀ (items : List V) (i : Int) (v : V) (u : U), pyIndexG items i = some v →
+    W.getitem (W.tupleOf items) (W.const (.int i)) u = some (v, u)
+  slice : ∀ (items : List V) (lo : Nat) (hi : Option Int) (u : U),
+    W.getslice (W.tupleOf items) (some (.const (.int (lo : Int)))) (hi.map intConstant) none u =
+      some (W.tupleOf (pySliceG items lo hi), u)
+  iter : ∀ (items : List V) (u : U), W.iter (W.tupleOf items) u = some (items, u)
 
 inductive AssignAll (W : World U V) : List Expr → V → U → U → Prop
   | nil (v : V) (u : U) : AssignAll W [] v u u
@@ -230,14 +249,14 @@ def plainIndex : Expr → Prop
   | _ => True
 
 /-- the targets the fragment allows: names, attributes, plain subscripts, and tuple / list patterns of
-    such targets without a starred item, nested to any depth (starred items: C13.unpack has the index
-    arithmetic, not lifted to this semantics) -/
+    such targets with at most one starred item, nested to any depth -/
 inductive SimpleT : Expr → Prop
   | name (x : String) : SimpleT (.name x)
   | attr (o : Expr) (a : String) : Clean o → SimpleT (.attribute o a)
   | sub (o i : Expr) : Clean o → Clean i → plainIndex i → SimpleT (.subscript o i)
-  | tuple (es : List Expr) : (∀ e ∈ es, SimpleT e) → SimpleT (.tuple es)
-  | list (es : List Expr) : (∀ e ∈ es, SimpleT e) → SimpleT (.list es)
+  | tuple (es : List Expr) : (∀ e ∈ es, SimpleT e) → starCount es ≤ 1 → SimpleT (.tuple es)
+  | list (es : List Expr) : (∀ e ∈ es, SimpleT e) → starCount es ≤ 1 → SimpleT (.list es)
+  | starred (sub : Expr) : SimpleT sub → SimpleT (.starred sub)
 
 /-- the statements of the fragment: expression statements, `pass`, `global`, assignments with any
     number of name / attribute / subscript targets, augmented assignments on the same targets,
